@@ -249,7 +249,9 @@ example :
     outerMarks (expand (compl (joined [ranged 2 5 false false, point 7, ranged 9 12 false false])) 10 (-3)) = (true, false) ∧
     outerMarks (expand (compl (joined [ranged 2 5 false false, point 7, ranged 9 12 false false])) 2 (-2)) = (false, true) ∧
     filterMapPos (delMap 0 20) (den (compl (joined [ranged 2 5 false false, point 7, ranged 9 12 false false]))) = [] ∧
-    coordsWithin (compl (joined [ranged 2 5 false false, point 7, ranged 9 12 false false])) 13 = true := by
+    coordsWithin (compl (joined [ranged 2 5 false false, point 7, ranged 9 12 false false])) 13 = true ∧
+    expandAbs (compl (joined [ranged 2 5 false false, point 7, ranged 9 12 false false])) 10 (-3) = false ∧
+    (den (compl (joined [ranged 2 5 false false, point 7, ranged 9 12 false false]))).Nodup := by
   decide
 
 /-! ### record level: what `gts.Delete` / `gts.Erase` / `gts.Slice` do to every feature -/
